@@ -39,18 +39,9 @@ theorem literal_value_preserved (W : World) (env : Ast.Env) (c : Const) (a : Hls
     (hg : genLiteral c = .ok a) : Sim W env (.lit c) a c.ty :=
   sim_lit W env c a hg
 
-/-- …and the one constant for which the exporter does not produce a tree at all: `i32::MIN` (debug build: `-v`
-overflows in `generate_literal`).  Replayed on the real compiler by corpus/C01.txt (`return -2147483648;`). -/
-theorem literal_int32_min_panics :
-    genLiteral (.int32 (BitVec.intMin 32)) = .error (.panic "hlsl/src/ast_generate.rs: attempt to negate with overflow") := by
-  have h : (BitVec.intMin 32).toInt < 0 := by decide
-  simp [genLiteral, Const.kind, Const.intValue, findArm_int32_neg _ h, negMagnitude]
-
-/-- every other `Int32`/`UInt32`/`Bool`/`Float32`/`FloatLiteral` constant, and every `IntLiteral` of magnitude ≤ u64::MAX,
-is exported without a panic. -/
-theorem literal_total_except_min (c : Const)
-    (h1 : c ≠ .int32 (BitVec.intMin 32))
-    (h2 : ∀ v, c = .intLit v → -u64Max ≤ v ∧ v ≤ u64Max) : ∃ a, genLiteral c = .ok a := by
+/-- the literal function is **total** on the modelled constants (since fix b1ff3d2 also on `Int32(i32::MIN)`); only an
+`IntLiteral` of magnitude above `u64::MAX` has no tree (`panic!("cannot represent …")`, unreachable from source text) -/
+theorem literal_total (c : Const) (h2 : ∀ v, c = .intLit v → -u64Max ≤ v ∧ v ≤ u64Max) : ∃ a, genLiteral c = .ok a := by
   cases c with
   | bool b => simp [genLiteral, Const.kind, Const.intValue, findArm_bool, mkLit, Except.map]
   | float32 x => simp [genLiteral, Const.kind, Const.intValue, findArm_f32, mkLit, Except.map]
@@ -63,10 +54,27 @@ theorem literal_total_except_min (c : Const)
     · simp [genLiteral, Const.kind, Const.intValue, findArm_intLit_nonneg v (by omega) this.2, mkLit, Except.map]
   | int32 v =>
     by_cases hn : v.toInt < 0
-    · have hm : v ≠ BitVec.intMin 32 := fun h => h1 (by rw [h])
-      simp [genLiteral, Const.kind, Const.intValue, findArm_int32_neg _ hn, negMagnitude, hm]
+    · simp [genLiteral, Const.kind, Const.intValue, findArm_int32_neg _ hn, negMagnitude]
     · simp [genLiteral, Const.kind, Const.intValue, findArm_int32_nonneg _ hn, mkLit, Except.map]
 
+/-- `i32::MIN` is emitted as unary minus applied to the *unsuffixed* literal `2147483648`.  Under the C-like semantics of
+`Spec.Sem` an unsuffixed literal is a literal int (exact integer, as in HLSL / in RSSL's own `IntLiteral`), so the
+operand has value 2147483648 and type literal int, the negation is exact, and the value -2147483648 converts to `int`
+without loss wherever the exporter places it: meaning **is** preserved for this constant too — it is an instance of
+`literal_value_preserved` (no special case is left). -/
+theorem literal_int32_min (W : World) (env : Ast.Env) :
+    genLiteral (.int32 (BitVec.intMin 32)) = .ok (.un .Minus (.lit (.intUntyped 2147483648))) ∧
+    Ast.typeOf W.sig env (.un .Minus (.lit (.intUntyped 2147483648))) = some .lit ∧
+    (∀ σ, Ast.eval W env (.un .Minus (.lit (.intUntyped 2147483648))) σ = some (.lit (-2147483648), σ)) ∧
+    castVal W.P .int (.lit (-2147483648)) = some (.i (BitVec.intMin 32)) := by
+  have h : (BitVec.intMin 32).toInt < 0 := by decide
+  have hg : genLiteral (.int32 (BitVec.intMin 32)) = .ok (.un .Minus (.lit (.intUntyped 2147483648))) := by
+    simp [genLiteral, Const.kind, Const.intValue, findArm_int32_neg _ h, negMagnitude]
+    decide
+  have hs := (sim_lit W env _ _ hg).lit
+  refine ⟨hg, hs.1, fun σ => ?_, ?_⟩
+  · rw [hs.2 σ]; rfl
+  · simp [castVal]; decide
 
 /-! ## meaning preservation: expressions, statements, functions, programs
 
